@@ -462,11 +462,12 @@ func registerBig() {
 	})
 }
 
-// RealV is a symbolic float64: T is the exact real value of the ideal computation, Err bounds |float64 value - T|
-// (accumulated rounding error, unit round-off 2^-53 per conversion and operation), Mag bounds |T|.  Only
-// non-negative values built from unsigned integers, +, and * or / by positive constants are supported; anything
-// else is an engine error (inconclusive), never a silent real relaxation.  Subnormals/overflow are outside the model
-// (all magnitudes here are far from both).
+// RealV is a symbolic float64.  T denotes the float64 value itself (a real-sorted term): every conversion or operation
+// that can round contributes its own fresh real variable e with |e| <= u·Mag (u = 2^-53 unit round-off, Mag a concrete
+// bound on the magnitude), so repeated uses of one float value see one value.  Only non-negative values built from
+// unsigned integers, +, and * or / by positive constants are supported; anything else is an engine error
+// (inconclusive), never a silent real relaxation.  Subnormals/overflow are outside the model (all magnitudes here are
+// far from both).  Err == nil marks a value derived from a big.Float (exact real; no float64 arithmetic allowed).
 type RealV struct {
 	T        *Term
 	Err, Mag *big.Rat
@@ -474,17 +475,26 @@ type RealV struct {
 
 var fpUnit = new(big.Rat).SetFrac(big.NewInt(1), new(big.Int).Lsh(big.NewInt(1), 53))
 
+// fpRound returns t + e for a fresh e with |e| <= u*mag.
+func (x *Exec) fpRound(t *Term, mag *big.Rat) *Term {
+	x.fpErrN++
+	e := x.ts.Var(fmt.Sprintf("fperr%d", x.fpErrN), SReal, 0)
+	b := new(big.Rat).Mul(fpUnit, mag)
+	x.path = append(x.path, x.ts.Cmp(ORLe, x.ts.Real(new(big.Rat).Neg(b)), e), x.ts.Cmp(ORLe, e, x.ts.Real(b)))
+	return x.ts.RBin(ORAdd, t, e)
+}
+
 func (x *Exec) symIntToFloat(t *Term, signed bool) Value {
 	if signed {
 		panic(x.errf("float64(symbolic signed integer) is not modelled"))
 	}
 	_, ihi := x.ts.Interval(t)
 	hi := new(big.Rat).SetInt(ihi)
-	err := new(big.Rat)
+	v := x.ts.Int2Real(x.ts.BV2Int(t, false))
 	if hi.Cmp(new(big.Rat).SetInt(new(big.Int).Lsh(big.NewInt(1), 53))) > 0 {
-		err.Mul(hi, fpUnit)
+		v = x.fpRound(v, hi)
 	}
-	return &RealV{T: x.ts.Int2Real(x.ts.BV2Int(t, false)), Err: err, Mag: hi}
+	return &RealV{T: v, Err: new(big.Rat), Mag: hi}
 }
 
 func (x *Exec) floatAsReal(v Value) *RealV {
@@ -505,18 +515,27 @@ func (x *Exec) floatAsReal(v Value) *RealV {
 	panic(x.errf("float operand %T", v))
 }
 
-// realBinop models one float64 operation on symbolic operands with a sound absolute error bound.
+var fpSlack = new(big.Rat).SetFrac(big.NewInt(1<<20+1), big.NewInt(1<<20)) // magnitudes are inflated to cover operand errors
+
+// realBinop models one float64 operation on symbolic operands.
 func (x *Exec) realBinop(op token.Token, a, b Value) Value {
 	ra, rb := x.floatAsReal(a), x.floatAsReal(b)
-	add := func(p, q *big.Rat) *big.Rat { return new(big.Rat).Add(p, q) }
-	mul := func(p, q *big.Rat) *big.Rat { return new(big.Rat).Mul(p, q) }
+	switch op {
+	case token.LSS:
+		return x.ts.Cmp(ORLt, ra.T, rb.T)
+	case token.LEQ:
+		return x.ts.Cmp(ORLe, ra.T, rb.T)
+	case token.GTR:
+		return x.ts.Cmp(ORLt, rb.T, ra.T)
+	case token.GEQ:
+		return x.ts.Cmp(ORLe, rb.T, ra.T)
+	}
 	var t *Term
-	var mag, err *big.Rat
+	var mag *big.Rat
 	switch op {
 	case token.ADD:
 		t = x.ts.RBin(ORAdd, ra.T, rb.T)
-		mag = add(ra.Mag, rb.Mag)
-		err = add(ra.Err, rb.Err)
+		mag = new(big.Rat).Add(ra.Mag, rb.Mag)
 	case token.MUL, token.QUO:
 		_, bc := b.(FloatV)
 		_, ac := a.(FloatV)
@@ -527,21 +546,17 @@ func (x *Exec) realBinop(op token.Token, a, b Value) Value {
 			if rb.Mag.Sign() == 0 {
 				panic(x.errf("symbolic float division by zero constant"))
 			}
-			inv := new(big.Rat).Inv(rb.Mag)
 			t = x.ts.RBin(ORDiv, ra.T, rb.T)
-			mag = mul(ra.Mag, inv)
-			err = mul(ra.Err, inv)
+			mag = new(big.Rat).Mul(ra.Mag, new(big.Rat).Inv(rb.Mag))
 		} else {
 			t = x.ts.RBin(ORMul, ra.T, rb.T)
-			mag = mul(ra.Mag, rb.Mag)
-			err = add(mul(ra.Err, rb.Mag), mul(rb.Err, ra.Mag))
+			mag = new(big.Rat).Mul(ra.Mag, rb.Mag)
 		}
 	default:
 		panic(x.errf("symbolic float operation %s is not modelled", op))
 	}
-	// rounding of the result: |fl(v) - v| <= u*|v|, |v| <= mag + err
-	err = add(err, mul(fpUnit, add(mag, err)))
-	return &RealV{T: t, Err: err, Mag: mag}
+	mag.Mul(mag, fpSlack)
+	return &RealV{T: x.fpRound(t, mag), Err: new(big.Rat), Mag: mag}
 }
 
 func (x *Exec) convertReal(r *RealV, to types.Type) Value {
@@ -552,17 +567,11 @@ func (x *Exec) convertReal(r *RealV, to types.Type) Value {
 		return r
 	}
 	if isIntT(to) {
-		// truncation of the (non-negative) float value T+e, |e| <= Err, e an arbitrary real
-		v := r.T
-		if r.Err != nil && r.Err.Sign() != 0 {
-			x.fpErrN++
-			e := x.ts.Var(fmt.Sprintf("fperr%d", x.fpErrN), SReal, 0)
-			x.path = append(x.path, x.ts.Cmp(ORLe, x.ts.Real(new(big.Rat).Neg(r.Err)), e), x.ts.Cmp(ORLe, e, x.ts.Real(r.Err)))
-			v = x.ts.RBin(ORAdd, v, e)
-			// the float value itself is non-negative
-			x.path = append(x.path, x.ts.Cmp(ORLe, x.ts.Real(new(big.Rat)), v))
+		if r.Err != nil {
+			// the float value is non-negative (built from non-negative operands): truncation = floor
+			x.path = append(x.path, x.ts.Cmp(ORLe, x.ts.Real(new(big.Rat)), r.T))
 		}
-		return x.ts.Int2BV(x.ts.Floor(v), intWidth(to))
+		return x.ts.Int2BV(x.ts.Floor(r.T), intWidth(to))
 	}
 	panic(x.errf("convert real to %s", to))
 }
